@@ -215,7 +215,7 @@ theorem mrebalanceTail_ok (hT : legalThreshold T = true) {d addr : Nat} {A : Lis
 
 /-! ### `nextLevelMapSlabs` -/
 
-theorem child_facts (hT : legalThreshold T = true) {d : Nat} {t : MTree r d} (ht : MTreeInv T D d false t) :
+theorem batch_child_facts (hT : legalThreshold T = true) {d : Nat} {t : MTree r d} (ht : MTreeInv T D d false t) :
     (hdr d t).firstKey = (digests0 d t).headD 0 :=
   SInv.firstKey_eq hT d false t (MTreeInv.sinv hT ht)
 
@@ -229,7 +229,7 @@ theorem firstChild_loose (hT : legalThreshold T = true) {d : Nat} (id : SlabID) 
   · intro c hc
     have : c = s := by simpa [MBatch.addChild, MBatch.emptyMeta] using hc
     subst this
-    exact ⟨hs, haddr, child_facts hT hs⟩
+    exact ⟨hs, haddr, batch_child_facts hT hs⟩
   · simp only [MBatch.addChild, MBatch.emptyMeta, List.nil_append, List.flatMap_cons, List.flatMap_nil,
       List.append_nil]
     exact SInv.sorted d false s (MTreeInv.sinv hT hs)
@@ -256,7 +256,7 @@ theorem addChild_loose (hT : legalThreshold T = true) {d : Nat} {m : MMetaSlab (
     simp only [MBatch.addChild, List.mem_append, List.mem_singleton] at hc
     rcases hc with hc | rfl
     · exact hm.child c hc
-    · exact ⟨hs, haddr, child_facts hT hs⟩
+    · exact ⟨hs, haddr, batch_child_facts hT hs⟩
   · simp only [MBatch.addChild, List.flatMap_append, List.flatMap_cons, List.flatMap_nil, List.append_nil]
     rw [List.pairwise_append]
     exact ⟨hm.sorted, SInv.sorted d false s (MTreeInv.sinv hT hs), hlt⟩
